@@ -103,6 +103,9 @@ func (w *World) resolveStables() {
 					if c[0] == "" && c[1] == SInt && isPointerLike(sl.Elem()) {
 						d.ptr[fam] = true
 					}
+					if c[0] == "#arr" {
+						d.ptr[fam] = true // the backing array of a kept slice value was allocated before the havoc
+					}
 				}
 				continue
 			}
@@ -142,6 +145,9 @@ func (w *World) resolveStables() {
 				d.fams[fam] = ArrSort(SInt, c[1])
 				if c[0] == "" && c[1] == SInt && isPointerLike(ft) {
 					d.ptr[fam] = true
+				}
+				if c[0] == "#arr" {
+					d.ptr[fam] = true // the backing array of a kept slice value was allocated before the havoc
 				}
 			}
 		}
